@@ -104,3 +104,12 @@ def replay_enum(prop, path, legs):
     else:
         print("replay: the recorded violation did not reproduce on the current tree")
     return st
+
+
+def simple(prop, legs, rule, counter, assumptions=(), **kw):
+    def run(tier):
+        return run_enum(prop, tier, legs, rule, counter, assumptions=list(assumptions), **kw)
+
+    def replay(path):
+        return replay_enum(prop, path, legs)
+    return run, replay
